@@ -115,6 +115,18 @@ pub fn check(t: &Trace<'_>, out: &mut CaseOut) -> bool {
             }
         }
     }
+    // a resumed connection that starts with retained packets must carry them whole: a stream the
+    // strict decoder cannot follow there means a retransmission that is not the first transmission
+    for ci in t.conns.iter().filter(|c| c.established && c.connack.as_ref().is_some_and(|k| k.0)) {
+        let c = &w.conns[ci.idx];
+        let Some((off, why)) = &c.out.error else { continue };
+        let cop = &t.log.ops[ci.connect_op.unwrap()];
+        let owed = cop.snap_after.as_ref().is_some_and(|s| !s.tx.retained.is_empty());
+        let abandoned = t.log.ops.iter().any(|o| o.conn == Some(ci.idx) && matches!(o.outcome, crate::exec::Outcome::Cancelled | crate::exec::Outcome::Watchdog) && o.out_after > o.out_before && o.out_before <= *off);
+        if owed && !abandoned {
+            out.violations.push(viol("C17", "C17/retransmission-undecodable", format!("resumed conn {} started with retained packets; its outbound stream cannot be decoded from offset {}: {}", ci.idx, off, why)));
+        }
+    }
     // a request that is refused with an error occupies nothing: same retained entries as before
     for (i, op) in t.log.ops.iter().enumerate() {
         if !matches!(op.kind, "publish0" | "publish1" | "publish2" | "subscribe" | "unsubscribe") {
